@@ -997,6 +997,12 @@ def run_once(body, prefix=(), **opts) -> ExecResult:
             gc.enable()
     for h in s.exit_hooks:
         h()
+    # concurrent.futures.thread._threads_queues is a WeakKeyDictionary {worker Thread: work queue}; here the (simulated) work
+    # queue refers to this Sched and hence to the Thread, so the entries would never go away (one leaked execution each)
+    cft = sys.modules.get('concurrent.futures.thread')
+    if cft is not None:
+        for k in [k for k, q in list(cft._threads_queues.items()) if getattr(q, '_s', None) is s]:
+            del cft._threads_queues[k]
     r = ExecResult()
     r.value = box.get('v')
     r.exc = box.get('e')
